@@ -423,9 +423,11 @@ fn main() {
             }
             _ => Vec::new(),
         };
-        let coq = format!("(andb (Z.eqb (head_timestamp (Some {}) 12345%Z) {}) (name_order_ok [{}]%N))", coq_z(epoch), coq_z(modified), name_keys.join(";"));
+        // table directory tags as big-endian numbers, in file order
+        let dir_tags: Vec<String> = sfnt::directory(first).map(|(_, d)| d.iter().map(|r| u32::from_be_bytes(r.tag).to_string()).collect()).unwrap_or_default();
+        let coq = format!("(andb (andb (Z.eqb (head_timestamp (Some {}) 12345%Z) {}) (name_order_ok [{}]%N)) (dir_order_ok [{}]%N))", coq_z(epoch), coq_z(modified), name_keys.join(";"), dir_tags.join(";"));
         emit_case(id, if name.starts_with("generated") { "generated" } else { "corpus" }, coq, None, true, name.clone(),
-            json!({"source": name, "builds": outs.len(), "bytes": first.len(), "identical": differing.is_empty(), "head_created": created, "name_records": name_keys.len()}));
+            json!({"source": name, "builds": outs.len(), "bytes": first.len(), "identical": differing.is_empty(), "head_created": created, "name_records": name_keys.len(), "tables": dir_tags.len()}));
         id += 1;
     }
     let vm = varmodel_stream(&mut rng, arg_val(&args, "--varmodel", 80) as usize);
